@@ -480,7 +480,8 @@ class Check(PropertyCheck):
                   "and padded values differently — calls ambiguous, validate_headers rejects) and raw_ambiguous_rejected (the same on raw bytes: if the strict reader finds the request "
                   "at the front of a byte stream ambiguous, what mitmproxy reads from the same bytes with h11 maybe_extract_lines + "
                   "read_request_head is refused by validate_headers; extractLines_of_headLines and splitWs_of_requestLine show that the "
-                  "two readers split head and request line identically); the whitelist lemma parseTE_codings (what "
+                  "two readers split head and request line identically; raw_ambiguous_rejected_response is the response side, in the context "
+                  "of the request method, with readResponseLine_of_statusLine for version and status); the whitelist lemma parseTE_codings (what "
                   "parse_transfer_encoding accepts is read by the reference reader as exactly the codings of the whitelist entry); "
                   "forward_request_roundtrip_nofold (for every request validate_headers accepts — from the wire or after addon edits — "
                   "with whitespace-free request-line parts, fold-free values and a body consistent with the headers, the reference "
